@@ -59,6 +59,11 @@ CORPUS = [
     ('gfa2', _adds(['S\tA\t10\t*', 'S\tB\t10\t*', 'G\tg1\tA+\tA-\t5\t*', 'G\tg2\tA+\tB+\t5\t*', 'F\tA\tr1+\t0\t3\t0\t3\t*',
                     'F\tA\tr1+\t5\t8\t0\t3\t*']) + [('rm', 'A')]),
     ('gfa2', _adds(['S\tA\t10\t*', 'S\tB\t10\t*', 'E\te1\tA+\tB+\t7\t10$\t0\t3\t*', 'O\to1\te1+ B+ e1- A+']) + [('rm', 'e1')]),
+    # lines that arrive before the segments they mention, then a rename of such a segment
+    ('gfa1', _adds(['C\tA\t+\tB\t+\t0\t*', 'L\tA\t+\tB\t-\t*', 'P\tp\tA+,B-\t*', 'S\tA\t*', 'S\tB\t*']) + [('rename', 'A', 'n1'), ('rename', 'B', 'n2')]),
+    ('gfa1', _adds(['C\tA\t-\tB\t+\t2\t3M', 'S\tB\t*', 'S\tA\t*']) + [('rename', 'B', 'n1'), ('rm', 'A')]),
+    ('gfa2', _adds(['E\te1\tA+\tB+\t7\t10$\t0\t3\t*', 'G\tg1\tA+\tB-\t5\t*', 'F\tA\tr1+\t0\t3\t0\t3\t*', 'U\tu1\tA e1', 'O\to1\tA+ B+',
+                    'S\tA\t10\t*', 'S\tB\t10\t*']) + [('rename', 'A', 'n1'), ('rename', 'e1', 'n2'), ('rename', 'B', 'n3')]),
     ('gfa1', _adds(['S\tA\t*', 'S\tB\t*', 'L\tA\t+\tB\t+\t*', 'P\tp\tA+,B+\t*']) + [('rename', 'A', 'a b'), ('rename', 'B', 'A'), ('rename', 'B', 'y+,z')], 3),
     ('gfa2', _adds(['S\tA\t10\t*', 'S\tB\t10\t*', 'E\te1\tA+\tB+\t7\t10$\t0\t3\t*', 'U\tu1\tA e1']) + [('rename', 'A', 'a b'), ('rename', 'e1', 'A'), ('rename', 'u1', '')], 3),
 ]
